@@ -193,7 +193,11 @@ def _main(check):
     paths = sum(s["paths"] for s in summ)
     log("explored %d paths, %d solver queries, %d candidate violations" % (paths, sum(s["queries"] for s in summ), len(viol)))
     if os.environ.get("VERIF_DEBUG"):
-        for v in viol[:int(os.environ["VERIF_DEBUG"])]: print("  CAND", v.get("family"), v["what"][:400])
+        byc = {}
+        for v in viol: byc.setdefault((check.classify(v) if hasattr(check, "classify") else v.get("family")), []).append(v)
+        for k, vs in byc.items():
+            print("  CLASS %s: %d candidates" % (k, len(vs)))
+            for v in vs[:int(os.environ["VERIF_DEBUG"])]: print("     CAND", v.get("family"), v["what"][:int(os.environ.get("VERIF_DEBUG_W", "300"))])
     # witnesses (vacuity guard)
     missing = []
     for f, s in zip(fams, summ):
